@@ -238,6 +238,14 @@ CHECKS = {
                  {"name": "VerifC17Tampered", "covers": ["done"], "targets": ["LocalEncryptionHandler).Read"]},
                  {"name": "VerifC17Substituted", "covers": ["done"], "targets": ["LocalEncryptionHandler).Read", "LocalEncryptionHandler).unwrapDEK", "LocalEncryptionHandler).decryptData"]},
              ]},
+            # the leader's data flow on an encrypted stream: what is handed to the log is the sealed form of
+            # exactly this message's value (the C04 harness with the codec stand-in switched on)
+            {"pkg": "./server", "overlay": "server", "pkgname": "server",
+             "harnesses": [
+                 {"name": "VerifC04Acks", "quick": {"maxbatch": 2, "actions": 0, "encryption": 1, "occ": 0}, "thorough": {"maxbatch": 3, "actions": 1, "encryption": 1, "occ": 0},
+                  "replay": "interpreted", "max-paths": 3000000, "covers": ["done"],
+                  "targets": ["partition).messageProcessingLoop", "partition).processPendingMessage"]},
+             ]},
         ],
     },
     "C18": {
@@ -280,8 +288,8 @@ CHECKS = {
         "groups": [
             {"pkg": "./server", "overlay": "server", "pkgname": "server",
              "harnesses": [
-                 {"name": "VerifC15Authz", "quick": {"methods": 16}, "thorough": {"methods": 16}, "replay": "interpreted", "max-violations": 40,
-                  "covers": ["done", "allowed", "denied"],
+                 {"name": "VerifC15Authz", "quick": {"methods": 17}, "thorough": {"methods": 17}, "replay": "interpreted", "max-violations": 40,
+                  "covers": ["done", "allowed", "denied", "denied-after-reload"],
                   "targets": ["apiServer).ensureAuthorizationPermission", "apiServer).Subscribe", "publishAsyncSession).publishLoop", "apiServer).Publish", "apiServer).CreateStream"]},
              ]},
         ],
